@@ -124,15 +124,15 @@ Section C08.
   Qed.
 
   (* ---- C08_multiset, drill: levels that hold integers, booleans, or text that no guess of _val_to_num
-     converts (lk: class of each level; Pv_drill: no metadata under the positional name dirN, non-empty
-     legal segment text).  The levels come back as dir0, dir1, ... with the guessed value of the key text
+     converts (lk: class of each level; Pv_drill: non-empty legal segment text; the metadata pm of the file is
+     arbitrary - it plays no role for drill since fix b6723cb of the dirN name collision).  The levels come back as dir0, dir1, ... with the guessed value of the key text
      (the integer, the boolean, the text).  Floats/timestamps in drill levels and levels mixing classes
      are NOT covered by this theorem.                                                   *)
   Theorem C08_multiset_drill :
     forall (pm : list (str * kind)) (names : list str), names <> [] ->
     forall ord : list str -> list str, (forall l x, In x (ord l) <-> In x l) ->
     forall (lk : str -> lclass) (chunks : list (list (row F T D P))),
-    frame_ok F T D P (dnames names) (Pv_drill F T D show_float parse_float show_time_iso show_time_str parse_time_pd parse_delta pm lk) (concat chunks) ->
+    frame_ok F T D P (dnames names) (Pv_drill F T D show_float parse_float show_time_iso show_time_str parse_time_pd parse_delta lk) (concat chunks) ->
     exists sch out,
       read_model F T D feqb teqb deqb f_eq_Z parse_float parse_time_np parse_time_fmt parse_time_pd parse_delta P pm ord
         (write_model F T D feqb teqb deqb f_eq_Z show_float show_time_iso show_time_str P false names chunks) = Some (sch, out) /\
@@ -145,8 +145,8 @@ Section C08.
   Qed.
 
   Theorem C08_placement_drill :
-    forall (pm : list (str * kind)) (names : list str) (lk : str -> lclass) (chunks : list (list (row F T D P))),
-    frame_ok F T D P (dnames names) (Pv_drill F T D show_float parse_float show_time_iso show_time_str parse_time_pd parse_delta pm lk) (concat chunks) ->
+    forall (names : list str) (lk : str -> lclass) (chunks : list (list (row F T D P))),
+    frame_ok F T D P (dnames names) (Pv_drill F T D show_float parse_float show_time_iso show_time_str parse_time_pd parse_delta lk) (concat chunks) ->
     let files := write_model F T D feqb teqb deqb f_eq_Z show_float show_time_iso show_time_str P false names chunks in
     Permutation (concat (map snd files)) (filter (nonnull F T D P) (concat chunks)) /\
     forall f r, In f files -> In r (snd f) ->
